@@ -91,6 +91,7 @@ impl<'a, T: Queryable> State<'a, T> {
 /// Represents the data that is being processed in the query.
 /// It can be a reference to a single object, a collection of references,
 #[derive(Debug, Clone, PartialEq)]
+#[cfg_attr(kani, repr(u8))]
 pub enum Data<'a, T: Queryable> {
     Ref(Pointer<'a, T>),
     Refs(Vec<Pointer<'a, T>>),
